@@ -36,7 +36,9 @@ Cat == << [typ |-> "REG",  c |-> 1, tgt |-> 0, exp |-> 0],
           [typ |-> "TS",   c |-> 1, tgt |-> 1, exp |-> 2],
           [typ |-> "LOCK", c |-> 1, tgt |-> 2, exp |-> 2],
           [typ |-> "REG",  c |-> 2, tgt |-> 0, exp |-> 0],
-          [typ |-> "REG",  c |-> 2, tgt |-> 0, exp |-> 1] >>
+          [typ |-> "REG",  c |-> 2, tgt |-> 0, exp |-> 1],
+          [typ |-> "REG",  c |-> 1, tgt |-> 0, exp |-> 1],
+          [typ |-> "LOCK", c |-> 1, tgt |-> 7, exp |-> 0] >>    \* a lock that never expires
 Ids  == 1..Len(Cat)
 LastExp == 2                     \* largest expiration epoch of the catalogue
 Cnrs == {1, 2}
